@@ -272,49 +272,38 @@ func (x *c03Env) ruleC() {
 		})
 	}
 
-	// every decodeKey result in handleSequence is posted, blocking, exactly once
-	g := c.P.Graph(x.handle)
-	ctx := x.ctxOf(x.pk)
-	for _, h := range g.Calls(func(fn *types.Func, _ *ast.CallExpr) bool { return fn != nil && repoName(fn) == "vaxis.decodeKey" }) {
-		call := h.Node.(*ast.CallExpr)
-		where := ctx(call)
-		base := fmt.Sprintf("%s/[%s] key := decodeKey", x.handle.Name, where)
-		obj := x.assignedVar(call)
-		if obj == nil {
-			c.undecided("C03.c", base+" result bound to a variable", call.Pos(), "the result of decodeKey is not assigned to a single variable")
-			continue
-		}
-		isPost := func(n ast.Node) bool { return x.isPostOf(n, obj, "vaxis.Vaxis.PostEventBlocking") }
-		okFollow, _ := g.MustFollow(h.Loc, isPost)
-		c.check(okFollow, "C03.c", base+" is posted (blocking) on every path", call.Pos(),
-			"every path from the decode to the end of handleSequence passes PostEventBlocking(key)",
-			"there is a path from decodeKey to the end of handleSequence that does not post the key with PostEventBlocking: a key press is lost (or may be dropped)")
-		posts := g.Find(isPost)
-		dup := false
-		for _, p := range posts {
-			g.walk(Loc{p.Loc.B, p.Loc.Idx + 1}, func(l Loc, n ast.Node) bool {
-				if containsNode(n, func(m ast.Node) bool {
-					return x.isPostOf(m, obj, "vaxis.Vaxis.PostEventBlocking") || x.isPostOf(m, obj, "vaxis.Vaxis.PostEvent")
-				}) {
-					dup = true
-				}
-				return !dup
-			}, nil)
-		}
-		c.check(!dup && len(posts) > 0, "C03.c", base+" is posted at most once", call.Pos(), "no second post of the same key is reachable", "the same key can be posted twice (or is never posted)")
-	}
+	x.ruleKeys()
 
 	// the mouse event is posted exactly when parseMouseEvent says ok
-	mcalls := g.Calls(func(fn *types.Func, _ *ast.CallExpr) bool {
-		return fn != nil && repoName(fn) == "vaxis.parseMouseEvent"
-	})
+	type mcall struct {
+		Hit
+		g  *FG
+		fi *FuncInfo
+	}
+	var mcalls []mcall
+	var kfis []*FuncInfo
+	for _, fi := range x.keyEnv().inReach {
+		if fi.Decl.Body != nil {
+			kfis = append(kfis, fi)
+		}
+	}
+	sort.Slice(kfis, func(i, j int) bool { return kfis[i].Name < kfis[j].Name })
+	for _, fi := range kfis {
+		fg := c.P.Graph(fi)
+		for _, h := range fg.Calls(func(fn *types.Func, _ *ast.CallExpr) bool {
+			return fn != nil && repoName(fn) == "vaxis.parseMouseEvent"
+		}) {
+			mcalls = append(mcalls, mcall{h, fg, fi})
+		}
+	}
 	if len(mcalls) == 0 {
-		c.undecided("C03.c", x.handle.Name+"/parseMouseEvent call", x.handle.Decl.Pos(), "handleSequence no longer calls parseMouseEvent")
+		c.undecided("C03.c", x.handle.Name+"/parseMouseEvent call", x.handle.Decl.Pos(), "the input context no longer calls parseMouseEvent")
 	}
 	for _, h := range mcalls {
+		g := h.g
 		call := h.Node.(*ast.CallExpr)
 		as, _ := x.par[call].(*ast.AssignStmt)
-		base := x.handle.Name + "/mouse, ok := parseMouseEvent"
+		base := h.fi.Name + "/mouse, ok := parseMouseEvent"
 		if as == nil || len(as.Lhs) != 2 {
 			c.undecided("C03.c", base, call.Pos(), "unexpected binding of parseMouseEvent's results")
 			continue
@@ -342,10 +331,14 @@ func (x *c03Env) ruleC() {
 				extra = append(extra, gd)
 			}
 		}
-		okOnly := len(extra) == 1 && extra[0].Pol && extra[0].Cond.Tag == nil
+		okOnly := len(extra) == 1 && extra[0].Cond.Tag == nil && extra[0].Cond.Alts == nil
 		if okOnly {
-			id, isId := unparen(extra[0].Cond.Expr).(*ast.Ident)
-			okOnly = isId && x.info.ObjectOf(id) == oobj
+			// the one extra guard is exactly the truth of ok (`if ok {post}` or `if !ok {return}; post`)
+			objs := objsIn(x.info, extra[0].Cond.Expr)
+			okOnly = len(objs) == 1 && objs[oobj] && x.impliesBool(extra[0].Cond.Expr, extra[0].Pol, func(e ast.Expr) bool {
+				id, isId := e.(*ast.Ident)
+				return isId && x.info.ObjectOf(id) == oobj
+			})
 		}
 		c.check(okOnly, "C03.c", base+" posted iff ok", posts[0].Node.Pos(),
 			"the post is conditioned on parseMouseEvent's ok result and on nothing else",
@@ -411,200 +404,88 @@ func (x *c03Env) ruleD() {
 		c.undecided("C03.d", "setup/Vaxis.pastePending, Key.EventType, EventPaste", 0, "paste state not found")
 		return
 	}
-	g := c.P.Graph(x.handle)
-	ctx := x.ctxOf(x.pk)
-	isPendingTest := func(e ast.Expr) (bool, bool) { // (is test, polarity)
-		pol := true
-		for {
-			e = unparen(e)
-			if u, ok := e.(*ast.UnaryExpr); ok && u.Op == token.NOT {
-				pol = !pol
-				e = u.X
-				continue
-			}
-			break
-		}
-		if b, ok := e.(*ast.BinaryExpr); ok && (b.Op == token.EQL || b.Op == token.NEQ) {
-			for _, pr := range [][2]ast.Expr{{b.X, b.Y}, {b.Y, b.X}} {
-				if tv, ok := x.info.Types[pr[1]]; ok && tv.Value != nil && tv.Value.Kind() == constant.Bool && x.selectsField(pr[0], pending) {
-					return true, pol == (constant.BoolVal(tv.Value) == (b.Op == token.EQL))
-				}
-			}
-		}
-		return x.selectsField(e, pending), pol
-	}
-	for _, h := range g.Calls(func(fn *types.Func, _ *ast.CallExpr) bool { return fn != nil && repoName(fn) == "vaxis.decodeKey" }) {
-		call := h.Node.(*ast.CallExpr)
-		key := fmt.Sprintf("%s/[%s] key posted with pastePending => EventPaste", x.handle.Name, ctx(call))
-		obj := x.assignedVar(call)
-		if obj == nil {
-			c.undecided("C03.d", key, call.Pos(), "the result of decodeKey is not assigned to a single variable")
-			continue
-		}
-		isMark := func(n ast.Node) bool {
-			as, ok := n.(*ast.AssignStmt)
-			if !ok || as.Tok != token.ASSIGN || len(as.Lhs) != 1 || len(as.Rhs) != 1 {
-				return false
-			}
-			if !x.selectsField(as.Lhs[0], evType) || rootObj(x.info, as.Lhs[0]) != obj {
-				return false
-			}
-			id, ok := unparen(as.Rhs[0]).(*ast.Ident)
-			return ok && x.info.ObjectOf(id) == evPaste
-		}
-		writesEvType := func(n ast.Node) bool {
-			as, ok := n.(*ast.AssignStmt)
-			if !ok {
-				return false
-			}
-			for _, l := range as.Lhs {
-				if x.selectsField(l, evType) && rootObj(x.info, l) == obj {
-					return true
-				}
-			}
-			return false
-		}
-		writesPending := func(n ast.Node) bool {
-			as, ok := n.(*ast.AssignStmt)
-			if !ok {
-				return false
-			}
-			for _, l := range as.Lhs {
-				if x.selectsField(l, pending) {
-					return true
-				}
-			}
-			return false
-		}
-		// states: 0 untested, 1 pending & unmarked, 2 pending & marked, 3 not pending
-		type node struct {
-			b  *cfg.Block
-			st int
-		}
-		seen := map[node]bool{}
-		problem := ""
-		nposts := 0
-		var walk func(b *cfg.Block, idx, st int)
-		walk = func(b *cfg.Block, idx, st int) {
-			if problem != "" {
-				return
-			}
-			if idx == 0 {
-				if seen[node{b, st}] {
-					return
-				}
-				seen[node{b, st}] = true
-			}
-			for i := idx; i < len(b.Nodes); i++ {
-				n := b.Nodes[i]
-				if containsNode(n, writesPending) {
-					problem = "pastePending is assigned between the decode and the post"
-					return
-				}
-				if containsNode(n, isMark) {
-					if st != 1 {
-						problem = "key.EventType = EventPaste is executed on a path where pastePending was not tested true: keys outside a paste are marked as pasted"
-						return
-					}
-					st = 2
-				} else if containsNode(n, writesEvType) {
-					problem = "key.EventType is overwritten between the decode and the post"
-					return
-				}
-				if containsNode(n, func(m ast.Node) bool {
-					return x.isPostOf(m, obj, "vaxis.Vaxis.PostEventBlocking") || x.isPostOf(m, obj, "vaxis.Vaxis.PostEvent")
-				}) {
-					nposts++
-					switch st {
-					case 0:
-						problem = "the key is posted on a path that never tests pastePending: a key inside a bracketed paste is not marked as pasted"
-					case 1:
-						problem = "the key is posted on the pastePending path without key.EventType = EventPaste"
-					}
-					return
-				}
-			}
-			cd := g.BranchCond(b)
-			if cd != nil && cd.Tag == nil && len(b.Succs) == 2 {
-				if is, pol := isPendingTest(cd.Expr); is {
-					if st == 0 {
-						t, f := 1, 3
-						if !pol {
-							t, f = 3, 1
-						}
-						walk(b.Succs[0], 0, t)
-						walk(b.Succs[1], 0, f)
-						return
-					}
-				} else if containsNode(cd.Expr, func(m ast.Node) bool { e, ok := m.(ast.Expr); return ok && x.selectsField(e, pending) }) {
-					problem = "pastePending is tested inside a compound condition the rule does not understand"
-					return
-				}
-			}
-			for _, s := range b.Succs {
-				walk(s, 0, st)
-			}
-		}
-		walk(h.Loc.B, h.Loc.Idx+1, 0)
-		switch {
-		case strings.Contains(problem, "does not understand"):
-			c.undecided("C03.d", key, call.Pos(), "%s", problem)
-		case problem != "":
-			c.bad("C03.d", key, call.Pos(), "%s", problem)
-		case nposts == 0:
-			c.bad("C03.d", key, call.Pos(), "no post of the decoded key is reachable")
-		default:
-			c.ok("C03.d", key, call.Pos(), "every path to the post tests pastePending and marks the key on the true edge only")
-		}
-	}
-
-	// writers of pastePending
-	seqFinal, p00 := x.seqTerms()
+	// writers of pastePending: anywhere in the input context, under Final == '~' and first parameter 200 (true) /
+	// 201 (false); the facts are followed from an extracted helper to its call site
 	want := map[bool]int64{true: 200, false: 201}
 	seenVal := map[bool]bool{}
+	k := x.keyEnv()
 	for _, fi := range c.P.FuncsIn("vaxis") {
 		if fi.Decl.Body == nil {
 			continue
 		}
+		fg := c.P.Graph(fi)
 		ast.Inspect(fi.Decl.Body, func(n ast.Node) bool {
 			switch t := n.(type) {
 			case *ast.UnaryExpr:
 				if t.Op == token.AND && x.selectsField(t.X, pending) {
 					c.bad("C03.d", fi.Name+"/&pastePending", t.Pos(), "the address of pastePending is taken: its writers can no longer be enumerated")
 				}
-			case *ast.IncDecStmt:
-				return true
 			case *ast.AssignStmt:
 				for i, l := range t.Lhs {
 					if !x.selectsField(l, pending) {
 						continue
 					}
-					val, isConst := false, false
-					if len(t.Rhs) == len(t.Lhs) {
-						if tv, ok := x.info.Types[t.Rhs[i]]; ok && tv.Value != nil && tv.Value.Kind() == constant.Bool {
-							val, isConst = constant.BoolVal(tv.Value), true
+					if k.inReach[fi.Obj] == nil {
+						c.bad("C03.d", fi.Name+"/pastePending assigned outside the input context", t.Pos(), "pastePending is assigned in a function the input goroutine does not reach: keys are marked (or not) as pasted independently of the paste brackets in the stream")
+						continue
+					}
+					loc, ok := fg.Locate(t)
+					if !ok || len(t.Rhs) != len(t.Lhs) {
+						c.undecided("C03.d", fi.Name+"/pastePending assignment", t.Pos(), "assignment not found in the control-flow graph (or multi-value)")
+						continue
+					}
+					eq := x.eqFactsInter(fi, fg, loc, 0)
+					var fin, p0 []int64
+					p0ID := ""
+					for _, o := range x.csiVars(fi) {
+						b := fmt.Sprintf("%p", o)
+						if len(eq[b+".Final"]) > 0 || len(eq[b+".Parameters[0][0]"]) > 0 {
+							fin, p0, p0ID = eq[b+".Final"], eq[b+".Parameters[0][0]"], b+".Parameters[0][0]"
 						}
 					}
-					key := fmt.Sprintf("%s/pastePending = %v only under CSI %d ~", fi.Name, val, want[val])
-					if !isConst {
-						c.undecided("C03.d", fi.Name+"/pastePending = <non-constant>", t.Pos(), "pastePending is assigned a non-constant value")
+					// value of the assignment for each possible first parameter
+					valFor := func(v int64) (bool, bool) {
+						if tv, ok := x.info.Types[t.Rhs[i]]; ok && tv.Value != nil && tv.Value.Kind() == constant.Bool {
+							return constant.BoolVal(tv.Value), true
+						}
+						if b, ok := unparen(t.Rhs[i]).(*ast.BinaryExpr); ok && (b.Op == token.EQL || b.Op == token.NEQ) {
+							for _, pr := range [][2]ast.Expr{{b.X, b.Y}, {b.Y, b.X}} {
+								cv, isC := constInt(x.info, pr[1])
+								if !isC {
+									continue
+								}
+								e := unparen(pr[0])
+								if id, ok := e.(*ast.Ident); ok {
+									if d, ok := x.singleDefs(fg)[x.info.ObjectOf(id)]; ok {
+										e = unparen(d)
+									}
+								}
+								if termOf(x.info, e).ID == p0ID && p0ID != "" {
+									return (v == cv) == (b.Op == token.EQL), true
+								}
+							}
+						}
+						return false, false
+					}
+					okF := c03Only(fin, '~')
+					if !okF || len(p0) == 0 {
+						val, _ := valFor(0)
+						c.bad("C03.d", fmt.Sprintf("%s/pastePending = %v only under CSI %d ~", fi.Name, val, want[val]), t.Pos(),
+							"pastePending is assigned where Final == '~' and a first parameter of 200/201 are not established (final %v, parameter %v): the paste state no longer follows the bracketed-paste brackets", fin, p0)
 						continue
 					}
-					if fi != x.handle {
-						c.bad("C03.d", key, t.Pos(), "pastePending is assigned outside handleSequence: keys are marked (or not) as pasted independently of the paste brackets in the stream")
-						continue
+					for _, v := range p0 {
+						val, known := valFor(v)
+						if !known {
+							c.undecided("C03.d", fi.Name+"/pastePending = <non-constant>", t.Pos(), "pastePending is assigned a value the rule cannot evaluate: %s", types.ExprString(t.Rhs[i]))
+							continue
+						}
+						key := fmt.Sprintf("%s/pastePending = %v only under CSI %d ~", fi.Name, val, want[val])
+						okP := v == want[val]
+						seenVal[val] = seenVal[val] || okP
+						c.check(okP, "C03.d", key, t.Pos(), "dominated by Final == '~' and first parameter == "+fmt.Sprint(want[val]),
+							fmt.Sprintf("pastePending = %v is executed for CSI %d ~ (values in force: final %v, parameter %v): the paste state no longer follows the bracketed-paste brackets", val, v, fin, p0))
 					}
-					loc, ok := g.Locate(t)
-					if !ok {
-						c.undecided("C03.d", key, t.Pos(), "assignment not found in the control-flow graph")
-						continue
-					}
-					eq := x.eqFacts(g, loc)
-					okF := c03Only(eq[seqFinal.ID], '~')
-					okP := c03Only(eq[p00.ID], want[val])
-					seenVal[val] = seenVal[val] || (okF && okP)
-					c.check(okF && okP, "C03.d", key, t.Pos(), "dominated by Final == '~' and first parameter == "+fmt.Sprint(want[val]),
-						fmt.Sprintf("pastePending = %v is not dominated by Final == '~' and Parameters[0][0] == %d (values in force: final %v, parameter %v): the paste state no longer follows the bracketed-paste brackets", val, want[val], eq[seqFinal.ID], eq[p00.ID]))
 				}
 			}
 			return true
@@ -630,26 +511,19 @@ func (x *c03Env) seqTerms() (final Term, p00 Term) {
 }
 
 func (x *c03Env) csiClause() *ast.CaseClause {
-	var out *ast.CaseClause
-	ast.Inspect(x.handle.Decl.Body, func(n ast.Node) bool {
-		ts, ok := n.(*ast.TypeSwitchStmt)
-		if !ok || out != nil {
-			return out == nil
-		}
-		if x.par[x.par[ts]] != ast.Node(x.handle.Decl) {
-			return true
-		}
-		for _, cl := range ts.Body.List {
-			cc := cl.(*ast.CaseClause)
-			for _, e := range cc.List {
-				if typeName(x.info.TypeOf(e)) == modPath+"/ansi.CSI" {
-					out = cc
-				}
+	ts := x.handleTypeSwitch()
+	if ts == nil {
+		return nil
+	}
+	for _, cl := range ts.Body.List {
+		cc := cl.(*ast.CaseClause)
+		for _, e := range cc.List {
+			if typeName(x.info.TypeOf(e)) == modPath+"/ansi.CSI" && len(cc.List) == 1 {
+				return cc
 			}
 		}
-		return false
-	})
-	return out
+	}
+	return nil
 }
 
 func (x *c03Env) csiClauseObj() types.Object {
@@ -660,38 +534,304 @@ func (x *c03Env) csiClauseObj() types.Object {
 	return x.info.Implicits[cc]
 }
 
-// eqFacts: for every term, the set of constant values it is known to equal at loc
-// (tagged switch cases including multi-value lists, and == comparisons).
+// eqFacts: for every term, the set of constant values it is known to equal at loc: == comparisons,
+// tagged switch cases (multi-value lists included), disjunctions of equalities on one term
+// (`f == 'M' || f == 'm'`, and by De Morgan the false edge of `f != 'M' && f != 'm'`). Locals that are
+// defined once from an access path (first := seq.Parameters[0][0]) stand for that path.
 func (x *c03Env) eqFacts(g *FG, loc Loc) map[string][]int64 {
 	out := map[string][]int64{}
-	for _, a := range g.FactsAt(loc) {
-		if a.Kind == "eq" && a.B.ID == "" {
-			out[a.A.ID] = []int64{a.K}
-		} else if a.Kind == "eq" && a.A.ID == "" {
-			out[a.B.ID] = []int64{-a.K}
+	meet := func(id string, vals []int64) {
+		sort.Slice(vals, func(i, j int) bool { return vals[i] < vals[j] })
+		if old, ok := out[id]; ok {
+			var both []int64
+			for _, v := range vals {
+				for _, o := range old {
+					if v == o {
+						both = append(both, v)
+					}
+				}
+			}
+			vals = both
 		}
+		out[id] = vals
 	}
+	defs := x.singleDefs(g)
+	term := func(e ast.Expr) (string, bool) {
+		e = unparen(e)
+		for hop := 0; hop < 4; hop++ {
+			id, ok := e.(*ast.Ident)
+			if !ok {
+				break
+			}
+			d, ok := defs[g.Info.ObjectOf(id)]
+			if !ok {
+				break
+			}
+			e = unparen(d)
+		}
+		t, k := linForm(g.Info, e)
+		if k != 0 || t.ID == "" || strings.HasPrefix(t.ID, "expr:") {
+			return "", false
+		}
+		return t.ID, true
+	}
+	// sets(e, pol): term -> values, only when the whole condition pins exactly these terms
+	var sets func(e ast.Expr, pol bool) map[string][]int64
+	sets = func(e ast.Expr, pol bool) map[string][]int64 {
+		e = unparen(e)
+		switch t := e.(type) {
+		case *ast.UnaryExpr:
+			if t.Op == token.NOT {
+				return sets(t.X, !pol)
+			}
+		case *ast.BinaryExpr:
+			switch {
+			case (t.Op == token.EQL && pol) || (t.Op == token.NEQ && !pol):
+				for _, pr := range [][2]ast.Expr{{t.X, t.Y}, {t.Y, t.X}} {
+					if v, ok := constInt(g.Info, pr[1]); ok {
+						if id, ok := term(pr[0]); ok {
+							return map[string][]int64{id: {v}}
+						}
+					}
+				}
+			case (t.Op == token.LAND && pol) || (t.Op == token.LOR && !pol):
+				a, b := sets(t.X, pol), sets(t.Y, pol)
+				r := map[string][]int64{}
+				for k, v := range a {
+					r[k] = v
+				}
+				for k, v := range b {
+					if o, ok := r[k]; ok {
+						var both []int64
+						for _, p := range v {
+							for _, q := range o {
+								if p == q {
+									both = append(both, p)
+								}
+							}
+						}
+						r[k] = both
+					} else {
+						r[k] = v
+					}
+				}
+				return r
+			case (t.Op == token.LOR && pol) || (t.Op == token.LAND && !pol):
+				a, b := sets(t.X, pol), sets(t.Y, pol)
+				r := map[string][]int64{}
+				for k, v := range a {
+					if w, ok := b[k]; ok { // a term is pinned only if both alternatives pin it
+						u := append(append([]int64{}, v...), w...)
+						r[k] = u
+					}
+				}
+				return r
+			}
+		}
+		return nil
+	}
+	// excluded(e, pol): term -> values the term cannot have when e has truth value pol
+	var excluded func(e ast.Expr, pol bool) map[string][]int64
+	excluded = func(e ast.Expr, pol bool) map[string][]int64 {
+		e = unparen(e)
+		switch t := e.(type) {
+		case *ast.UnaryExpr:
+			if t.Op == token.NOT {
+				return excluded(t.X, !pol)
+			}
+		case *ast.BinaryExpr:
+			switch {
+			case (t.Op == token.NEQ && pol) || (t.Op == token.EQL && !pol):
+				for _, pr := range [][2]ast.Expr{{t.X, t.Y}, {t.Y, t.X}} {
+					if v, ok := constInt(g.Info, pr[1]); ok {
+						if id, ok := term(pr[0]); ok {
+							return map[string][]int64{id: {v}}
+						}
+					}
+				}
+			case (t.Op == token.LAND && pol) || (t.Op == token.LOR && !pol):
+				r := map[string][]int64{}
+				for _, m := range []map[string][]int64{excluded(t.X, pol), excluded(t.Y, pol)} {
+					for k, v := range m {
+						r[k] = append(r[k], v...)
+					}
+				}
+				return r
+			}
+		}
+		return nil
+	}
+	excl := map[string]map[int64]bool{}
 	for _, gd := range g.Guards(loc) {
-		if gd.Cond.Alts == nil || gd.Cond.Tag == nil || !gd.Pol {
+		var got map[string][]int64
+		var objs map[types.Object]bool
+		if gd.Cond.Tag == nil && gd.Cond.Alts == nil {
+			if o2 := objsIn(g.Info, gd.Cond.Expr); len(o2) == 0 || !g.AssignedBetween(gd, loc, o2) {
+				for id, vals := range excluded(gd.Cond.Expr, gd.Pol) {
+					if excl[id] == nil {
+						excl[id] = map[int64]bool{}
+					}
+					for _, v := range vals {
+						excl[id][v] = true
+					}
+				}
+			}
+		} else if gd.Cond.Tag != nil && !gd.Pol && gd.Cond.Alts == nil {
+			// the false edge of `case c:` excludes c
+			if v, ok := constInt(g.Info, gd.Cond.Expr); ok {
+				if id, ok := term(gd.Cond.Tag); ok {
+					if o2 := objsIn(g.Info, gd.Cond.Tag); len(o2) == 0 || !g.AssignedBetween(gd, loc, o2) {
+						if excl[id] == nil {
+							excl[id] = map[int64]bool{}
+						}
+						excl[id][v] = true
+					}
+				}
+			}
+		}
+		switch {
+		case gd.Cond.Tag != nil && gd.Pol:
+			var vals []int64
+			okAll := true
+			exprs := gd.Cond.Alts
+			if exprs == nil {
+				exprs = []ast.Expr{gd.Cond.Expr}
+			}
+			for _, e := range exprs {
+				v, ok := constInt(g.Info, e)
+				okAll = okAll && ok
+				vals = append(vals, v)
+			}
+			if id, ok := term(gd.Cond.Tag); ok && okAll {
+				got = map[string][]int64{id: vals}
+			}
+			objs = objsIn(g.Info, gd.Cond.Tag)
+		case gd.Cond.Tag == nil && gd.Cond.Alts == nil:
+			got = sets(gd.Cond.Expr, gd.Pol)
+			objs = objsIn(g.Info, gd.Cond.Expr)
+		case gd.Cond.Tag == nil && gd.Cond.Alts != nil && gd.Pol:
+			// tagless `case a, b:` — a disjunction
+			var acc map[string][]int64
+			for i, e := range gd.Cond.Alts {
+				m := sets(e, true)
+				if i == 0 {
+					acc = m
+					continue
+				}
+				r := map[string][]int64{}
+				for k, v := range acc {
+					if w, ok := m[k]; ok {
+						r[k] = append(append([]int64{}, v...), w...)
+					}
+				}
+				acc = r
+			}
+			got = acc
+			objs = map[types.Object]bool{}
+			for _, e := range gd.Cond.Alts {
+				for o := range objsIn(g.Info, e) {
+					objs[o] = true
+				}
+			}
+		}
+		if len(got) == 0 {
 			continue
 		}
-		var vals []int64
-		okAll := true
-		for _, e := range gd.Cond.Alts {
-			v, ok := constInt(g.Info, e)
-			if !ok {
-				okAll = false
-			}
-			vals = append(vals, v)
+		if len(objs) > 0 && g.AssignedBetween(gd, loc, objs) {
+			continue
 		}
-		if okAll {
-			sort.Slice(vals, func(i, j int) bool { return vals[i] < vals[j] })
-			t, k := linForm(g.Info, gd.Cond.Tag)
-			if k == 0 {
-				out[t.ID] = vals
+		for id, vals := range got {
+			// dedupe
+			seen := map[int64]bool{}
+			var u []int64
+			for _, v := range vals {
+				if !seen[v] {
+					seen[v] = true
+					u = append(u, v)
+				}
+			}
+			meet(id, u)
+		}
+	}
+	for id, ex := range excl {
+		if vals, ok := out[id]; ok {
+			var keep []int64
+			for _, v := range vals {
+				if !ex[v] {
+					keep = append(keep, v)
+				}
+			}
+			out[id] = keep
+		}
+	}
+	// negative information is reported under "!"+id
+	for id, ex := range excl {
+		var vs []int64
+		for v := range ex {
+			vs = append(vs, v)
+		}
+		sort.Slice(vs, func(i, j int) bool { return vs[i] < vs[j] })
+		out["!"+id] = vs
+	}
+	return out
+}
+
+// singleDefs: locals of g's function that are defined exactly once (x := e) from an access path whose
+// root variable is never assigned in the function — they are names for that path.
+func (x *c03Env) singleDefs(g *FG) map[types.Object]ast.Expr {
+	if x.defCache == nil {
+		x.defCache = map[*FG]map[types.Object]ast.Expr{}
+	}
+	if d, ok := x.defCache[g]; ok {
+		return d
+	}
+	cnt := map[types.Object]int{}
+	def := map[types.Object]ast.Expr{}
+	ast.Inspect(g.Body, func(n ast.Node) bool {
+		switch t := n.(type) {
+		case *ast.AssignStmt:
+			for i, l := range t.Lhs {
+				if o := rootObj(g.Info, l); o != nil {
+					cnt[o]++
+					if id, ok := l.(*ast.Ident); ok && len(t.Lhs) == len(t.Rhs) && t.Tok == token.DEFINE && g.Info.Defs[id] != nil {
+						def[o] = t.Rhs[i]
+					}
+				}
+			}
+		case *ast.IncDecStmt:
+			if o := rootObj(g.Info, t.X); o != nil {
+				cnt[o]++
+			}
+		case *ast.RangeStmt:
+			for _, l := range []ast.Expr{t.Key, t.Value} {
+				if l != nil {
+					if o := rootObj(g.Info, l); o != nil {
+						cnt[o] += 2
+					}
+				}
+			}
+		case *ast.UnaryExpr:
+			if t.Op == token.AND {
+				if o := rootObj(g.Info, t.X); o != nil {
+					cnt[o] += 2
+				}
+			}
+		}
+		return true
+	})
+	out := map[types.Object]ast.Expr{}
+	for o, d := range def {
+		if cnt[o] != 1 {
+			continue
+		}
+		switch unparen(d).(type) {
+		case *ast.SelectorExpr, *ast.IndexExpr, *ast.Ident:
+			if r := rootObj(g.Info, d); r != nil && cnt[r] == 0 {
+				out[o] = d
 			}
 		}
 	}
+	x.defCache[g] = out
 	return out
 }
 
@@ -766,7 +906,7 @@ func (x *c03Env) ruleE() {
 		c.undecided("C03.e", name+"/loop", x.lit.Pos(), "the goroutine body has no top-level for loop")
 		return
 	}
-	c.check(loop.Cond == nil && loop.Init == nil && loop.Post == nil, "C03.e", name+"/loop is unconditional", loop.Pos(),
+	c.check(loop.Cond == nil, "C03.e", name+"/loop is unconditional", loop.Pos(),
 		"for { … }", "the input loop has a condition: it can stop consuming input")
 	var firstDefer, loopIdx = -1, -1
 	for i, s := range x.lit.Body.List {
@@ -779,20 +919,63 @@ func (x *c03Env) ruleE() {
 	}
 	c.check(firstDefer >= 0 && firstDefer < loopIdx, "C03.e", name+"/recover installed before the loop", loop.Pos(), "defer precedes the loop", "the recover handler is not installed before the loop starts")
 
-	// exits of the loop: return / break-out only in the EOF case or the kill-signal arm
+	// "this point is reached only for an EOF sequence / only on termination", however it is written:
+	// a type-switch clause listing only EOF, the then-branch of `if _, ok := seq.(ansi.EOF); ok`, the code
+	// after `if !ok { …; continue }`, or the chSigKill / chQuit arm of the select.
 	eofT := modPath + "/ansi.EOF"
-	nExit := 0
-	var exits func(n ast.Node, depthBreakable int)
-	classify := func(n ast.Node) string {
-		for cur := x.par[n]; cur != nil && cur != ast.Node(loop); cur = x.par[cur] {
-			switch t := cur.(type) {
-			case *ast.CaseClause:
-				if _, ok := x.par[x.par[t]].(*ast.TypeSwitchStmt); ok {
-					for _, e := range t.List {
-						if typeName(x.info.TypeOf(e)) == eofT && len(t.List) == 1 {
-							return "EOF case"
+	lg := c.P.GraphOfLit(x.pk, name, x.lit)
+	isEOFOk := func(e ast.Expr) bool {
+		id, ok := e.(*ast.Ident)
+		if !ok {
+			return false
+		}
+		obj := x.info.ObjectOf(id)
+		if obj == nil {
+			return false
+		}
+		nAssign, fromEOF := 0, false
+		ast.Inspect(x.lit.Body, func(n ast.Node) bool {
+			as, ok := n.(*ast.AssignStmt)
+			if !ok {
+				return true
+			}
+			for i, l := range as.Lhs {
+				if lid, ok := l.(*ast.Ident); ok && x.info.ObjectOf(lid) == obj {
+					nAssign++
+					if i == 1 && len(as.Lhs) == 2 && len(as.Rhs) == 1 {
+						if ta, ok := unparen(as.Rhs[0]).(*ast.TypeAssertExpr); ok && ta.Type != nil && typeName(x.info.TypeOf(ta.Type)) == eofT {
+							fromEOF = true
 						}
 					}
+				}
+			}
+			return true
+		})
+		return nAssign == 1 && fromEOF
+	}
+	classify := func(n ast.Node) string {
+		// syntactic context
+		var child ast.Node = n
+		for cur := x.par[n]; cur != nil && cur != ast.Node(loop); child, cur = cur, x.par[cur] {
+			switch t := cur.(type) {
+			case *ast.CaseClause:
+				if _, ok := x.par[x.par[t]].(*ast.TypeSwitchStmt); ok && len(t.List) >= 1 {
+					all := true
+					for _, e := range t.List {
+						if typeName(x.info.TypeOf(e)) != eofT {
+							all = false
+						}
+					}
+					if all {
+						return "EOF case"
+					}
+				}
+			case *ast.IfStmt:
+				if child == ast.Node(t.Body) && x.impliesBool(t.Cond, true, isEOFOk) {
+					return "EOF test"
+				}
+				if t.Else != nil && child == ast.Node(t.Else) && x.impliesBool(t.Cond, false, isEOFOk) {
+					return "EOF test"
 				}
 			case *ast.CommClause:
 				if t.Comm != nil {
@@ -809,256 +992,141 @@ func (x *c03Env) ruleE() {
 				}
 			}
 		}
-		return ""
-	}
-	exits = func(n ast.Node, depth int) {
-		ast.Inspect(n, func(m ast.Node) bool {
-			switch t := m.(type) {
-			case *ast.FuncLit:
-				return false
-			case *ast.ReturnStmt:
-				nExit++
-				why := classify(t)
-				c.check(why != "", "C03.e", fmt.Sprintf("%s/loop exit (return) only on EOF or termination", name), t.Pos(), "exit in the "+why,
-					"the input loop returns outside the EOF case and the kill-signal arm: input stops being consumed while the application runs")
-			case *ast.BranchStmt:
-				if (t.Tok == token.BREAK && t.Label != nil) || t.Tok == token.GOTO {
-					nExit++
-					why := classify(t)
-					c.check(why != "", "C03.e", fmt.Sprintf("%s/loop exit (%s) only on EOF or termination", name, t.Tok), t.Pos(), "exit in the "+why,
-						"the input loop is left outside the EOF case and the kill-signal arm")
-				} else if t.Tok == token.BREAK {
-					// unlabeled break: leaves the loop only if no switch/select/for encloses it inside the loop
-					inner := false
-					for cur := x.par[t]; cur != nil && cur != ast.Node(loop); cur = x.par[cur] {
-						switch cur.(type) {
-						case *ast.SwitchStmt, *ast.TypeSwitchStmt, *ast.SelectStmt, *ast.ForStmt, *ast.RangeStmt:
-							inner = true
-						}
-					}
-					if !inner {
-						nExit++
-						why := classify(t)
-						c.check(why != "", "C03.e", name+"/loop exit (break) only on EOF or termination", t.Pos(), "exit in the "+why, "the input loop is left by a break outside the EOF case and the kill-signal arm")
-					}
+		// dominating conditions (early-exit forms)
+		if loc, ok := lg.Locate(n); ok {
+			for _, gd := range lg.Guards(loc) {
+				if gd.Cond.Tag == nil && gd.Cond.Alts == nil && x.impliesBool(gd.Cond.Expr, gd.Pol, isEOFOk) {
+					return "EOF test"
 				}
 			}
-			return true
-		})
+		}
+		return ""
 	}
-	exits(loop.Body, 0)
+	nExit := 0
+	ast.Inspect(loop.Body, func(m ast.Node) bool {
+		switch t := m.(type) {
+		case *ast.FuncLit:
+			return false
+		case *ast.ReturnStmt:
+			nExit++
+			why := classify(t)
+			c.check(why != "", "C03.e", fmt.Sprintf("%s/loop exit (return) only on EOF or termination", name), t.Pos(), "exit in the "+why,
+				"the input loop returns outside the EOF case and the kill-signal arm: input stops being consumed while the application runs")
+		case *ast.BranchStmt:
+			leaves := false
+			switch {
+			case t.Tok == token.GOTO:
+				leaves = true
+			case t.Tok == token.BREAK && t.Label != nil:
+				// leaves the loop iff the label names the loop (or something outside it)
+				if ls, ok := x.par[loop].(*ast.LabeledStmt); ok && ls.Label.Name == t.Label.Name {
+					leaves = true
+				}
+			case t.Tok == token.BREAK:
+				inner := false
+				for cur := x.par[t]; cur != nil && cur != ast.Node(loop); cur = x.par[cur] {
+					switch cur.(type) {
+					case *ast.SwitchStmt, *ast.TypeSwitchStmt, *ast.SelectStmt, *ast.ForStmt, *ast.RangeStmt:
+						inner = true
+					}
+				}
+				leaves = !inner
+			}
+			if leaves {
+				nExit++
+				why := classify(t)
+				c.check(why != "", "C03.e", fmt.Sprintf("%s/loop exit (%s) only on EOF or termination", name, t.Tok), t.Pos(), "exit in the "+why,
+					"the input loop is left outside the EOF case and the kill-signal arm")
+			}
+		}
+		return true
+	})
 	if nExit == 0 {
 		c.undecided("C03.e", name+"/loop exits", loop.Pos(), "the loop has no exit at all (EOF must end it)")
 	}
 
-	// every non-EOF sequence is handed to handleSequence, then released
-	var ts *ast.TypeSwitchStmt
+	// every received sequence other than EOF reaches handleSequence before the loop waits again
+	var arm *ast.CommClause
+	var sel *ast.SelectStmt
 	ast.Inspect(loop.Body, func(n ast.Node) bool {
-		if t, ok := n.(*ast.TypeSwitchStmt); ok && ts == nil {
-			ts = t
+		cc, ok := n.(*ast.CommClause)
+		if !ok || cc.Comm == nil || arm != nil {
+			return true
 		}
-		return ts == nil
+		if containsNode(cc.Comm, func(m ast.Node) bool { return isCallTo(x.info, m, "ansi.Parser.Next") }) {
+			arm = cc
+			sel, _ = x.par[x.par[cc]].(*ast.SelectStmt)
+		}
+		return true
 	})
-	if ts == nil {
-		c.undecided("C03.e", name+"/dispatch of received sequences", loop.Pos(), "no type switch over the received sequence")
+	key := name + "/every received sequence other than EOF is handed to handleSequence"
+	if arm == nil || sel == nil {
+		c.undecided("C03.e", key, loop.Pos(), "no select arm receiving from parser.Next() in the loop")
 		return
 	}
-	hasDefault := false
-	for _, cl := range ts.Body.List {
-		cc := cl.(*ast.CaseClause)
-		isEOF := false
-		var names []string
-		for _, e := range cc.List {
-			tn := typeName(x.info.TypeOf(e))
-			names = append(names, tn[strings.LastIndex(tn, ".")+1:])
-			if tn == eofT {
-				isEOF = true
-			}
+	var start *cfg.Block
+	for _, b := range lg.Blocks {
+		if b.Kind == cfg.KindSelectCaseBody && b.Stmt == ast.Stmt(arm) {
+			start = b
 		}
-		if cc.List == nil {
-			hasDefault = true
-			names = []string{"default"}
-		}
-		if isEOF && len(cc.List) == 1 {
-			continue
-		}
-		handles := false
-		for _, s := range cc.Body {
-			if es, ok := s.(*ast.ExprStmt); ok && isCallTo(x.info, es.X, "vaxis.Vaxis.handleSequence") {
-				handles = true
-			}
-		}
-		c.check(handles, "C03.e", fmt.Sprintf("%s/case %s hands the sequence to handleSequence", name, strings.Join(names, ",")), cc.Pos(),
-			"unconditional call of handleSequence in the clause", "sequences of this case are received from the parser but never handled: their input is lost")
 	}
-	c.check(hasDefault, "C03.e", name+"/every sequence type other than EOF is handled (default clause)", ts.Pos(), "default clause present", "the type switch has no default clause: sequence types it does not list are dropped")
-}
-
-// ---- C03.g
-
-func (x *c03Env) ruleG() {
-	c := x.c
-	g := c.P.Graph(x.handle)
-	cc := x.csiClause()
-	seqObj := x.csiClauseObj()
-	if cc == nil || seqObj == nil {
-		c.undecided("C03.g", x.handle.Name+"/CSI clause", x.handle.Decl.Pos(), "no `case ansi.CSI` clause in handleSequence's type switch")
+	if start == nil {
+		c.undecided("C03.e", key, arm.Pos(), "select arm not found in the control-flow graph")
 		return
 	}
-	finalT, p00 := x.seqTerms()
-	inCSI := func(n ast.Node) bool { return cc.Pos() <= n.Pos() && n.End() <= cc.End() }
-
-	type want struct {
-		finals []int64
-		p0     int64 // 0: none
-	}
-	table := map[string]want{
-		"FocusIn":         {[]int64{'I'}, 0},
-		"FocusOut":        {[]int64{'O'}, 0},
-		"PasteStartEvent": {[]int64{'~'}, 200},
-		"PasteEndEvent":   {[]int64{'~'}, 201},
-		"Mouse":           {[]int64{'M', 'm'}, 0},
-	}
-	found := map[string]int{}
-	posts := g.Calls(func(fn *types.Func, call *ast.CallExpr) bool {
-		return fn != nil && (repoName(fn) == "vaxis.Vaxis.PostEventBlocking" || repoName(fn) == "vaxis.Vaxis.PostEvent") && len(call.Args) == 1
-	})
-	var mouseOK types.Object
-	for _, h := range g.Calls(func(fn *types.Func, _ *ast.CallExpr) bool {
-		return fn != nil && repoName(fn) == "vaxis.parseMouseEvent"
-	}) {
-		if as, ok := x.par[h.Node].(*ast.AssignStmt); ok && len(as.Lhs) == 2 {
-			if id, ok := as.Lhs[1].(*ast.Ident); ok {
-				mouseOK = x.info.ObjectOf(id)
+	isSelHead := func(b *cfg.Block) bool {
+		if b.Kind == cfg.KindSelectDone && b.Stmt == ast.Stmt(sel) {
+			return true
+		}
+		for _, n := range b.Nodes {
+			if cc, ok := x.par[n].(*ast.CommClause); ok && cc.Comm == n && x.par[x.par[cc]] == ast.Node(sel) {
+				return true
 			}
 		}
+		return false
 	}
-	for _, h := range posts {
-		call := h.Node.(*ast.CallExpr)
-		nt, ok := x.info.TypeOf(call.Args[0]).(*types.Named)
-		if !ok {
-			continue
+	var missed token.Pos
+	seen := map[*cfg.Block]bool{}
+	var walk func(b *cfg.Block, first bool)
+	walk = func(b *cfg.Block, first bool) {
+		if missed.IsValid() || seen[b] {
+			return
 		}
-		w, ok := table[nt.Obj().Name()]
-		if !ok || nt.Obj().Pkg() != x.pk.Types {
-			continue
-		}
-		tn := nt.Obj().Name()
-		found[tn]++
-		eq := x.eqFacts(g, h.Loc)
-		fin := eq[finalT.ID]
-		desc := "CSI"
-		for _, f := range w.finals {
-			desc += fmt.Sprintf(" %c", rune(f))
-		}
-		if w.p0 != 0 {
-			desc = fmt.Sprintf("CSI %d ~", w.p0)
-		}
-		key := fmt.Sprintf("%s/%s posted under %s", x.handle.Name, tn, desc)
-		okDisp := inCSI(call) && fmt.Sprint(fin) == fmt.Sprint(w.finals) && (w.p0 == 0 || c03Only(eq[p00.ID], w.p0))
-		c.check(okDisp, "C03.g", key, call.Pos(), "dispatch keys in force: final "+c03Runes(fin),
-			fmt.Sprintf("%s is posted under final %s, first parameter %v — the report it stands for is %s: the wrong event (or none) is delivered for that report", tn, c03Runes(fin), eq[p00.ID], desc))
-		// nothing outside the report conditions the delivery
-		var foreign []string
-		for _, gd := range g.Guards(h.Loc) {
-			exprs := []ast.Expr{gd.Cond.Expr}
-			if gd.Cond.Tag != nil {
-				exprs = append(exprs, gd.Cond.Tag)
+		seen[b] = true
+		if !first && isSelHead(b) {
+			missed = arm.Pos()
+			if len(b.Nodes) > 0 {
+				missed = b.Nodes[0].Pos()
 			}
-			exprs = append(exprs, gd.Cond.Alts...)
-			for _, e := range exprs {
-				for o := range objsIn(x.info, e) {
-					if o != seqObj && !(tn == "Mouse" && o == mouseOK) {
-						foreign = append(foreign, o.Name())
-					}
+			return
+		}
+		for _, n := range b.Nodes {
+			if cc, ok := x.par[n].(*ast.CommClause); ok && cc.Comm == n {
+				continue
+			}
+			if containsNode(n, func(m ast.Node) bool { return isCallTo(x.info, m, "vaxis.Vaxis.handleSequence") }) {
+				return
+			}
+			if rs, ok := n.(*ast.ReturnStmt); ok {
+				if classify(rs) == "" {
+					missed = rs.Pos() // reported by the exit rule as well
 				}
-				ast.Inspect(e, func(m ast.Node) bool {
-					if call, ok := m.(*ast.CallExpr); ok {
-						if tv, ok := x.info.Types[call.Fun]; ok && tv.IsType() {
-							return true
-						}
-						if id, ok := unparen(call.Fun).(*ast.Ident); ok {
-							if _, ok := x.info.Uses[id].(*types.Builtin); ok {
-								return true
-							}
-						}
-						foreign = append(foreign, types.ExprString(call.Fun)+"()")
-					}
-					return true
-				})
+				return
 			}
 		}
-		sort.Strings(foreign)
-		c.check(len(foreign) == 0, "C03.g", fmt.Sprintf("%s/%s delivery depends on the report only", x.handle.Name, tn), call.Pos(),
-			"every dominating condition reads the sequence only", "the delivery of "+tn+" also depends on "+strings.Join(foreign, ", ")+": a report in the stream may yield no event")
-	}
-	for tn := range table {
-		if found[tn] == 0 {
-			c.bad("C03.g", fmt.Sprintf("%s/%s is posted", x.handle.Name, tn), cc.Pos(), "handleSequence never posts %s: the corresponding reports yield no event", tn)
+		if len(b.Succs) == 0 && lg.isNormalExit(b) && b.Kind != cfg.KindSelectAfterCase {
+			missed = arm.Pos()
+			return
+		}
+		for _, s := range b.Succs {
+			walk(s, false)
 		}
 	}
-
-	// key-carrying finals: a silent return needs a discriminator no key report satisfies
-	keyFinals := x.keyFinals()
-	interT := Term{ID: fmt.Sprintf("%p.Intermediate", seqObj)}
-	paramsT := Term{ID: fmt.Sprintf("%p.Parameters", seqObj)}
-	reqPos := x.fieldVar("Vaxis", "reqCursorPos")
-	nRet := 0
-	for _, h := range g.Find(func(n ast.Node) bool { _, ok := n.(*ast.ReturnStmt); return ok && inCSI(n) }) {
-		eq := x.eqFacts(g, h.Loc)
-		fin := eq[finalT.ID]
-		var carried []int64
-		for _, f := range fin {
-			if keyFinals[f] {
-				carried = append(carried, f)
-			}
-		}
-		if len(fin) == 0 {
-			// a return not under a final-byte case: it would swallow every CSI key
-			nRet++
-			c.bad("C03.g", x.handle.Name+"/return outside the final-byte dispatch", h.Node.Pos(), "a return in the CSI clause that is not under a case of the final byte: every CSI key report after it is lost")
-			continue
-		}
-		if len(carried) == 0 {
-			continue
-		}
-		nRet++
-		facts := g.FactsAt(h.Loc)
-		disc := ""
-		switch {
-		case impliesLin(facts, Term{}, Term{ID: "len(" + interT.ID + ")"}, -1):
-			disc = "the report has a private marker / intermediate byte (key reports have none)"
-		case len(eq[interT.ID+"[0]"]) > 0:
-			disc = "the report has a private marker / intermediate byte (key reports have none)"
-		case c03Only(fin, '~') && (c03Only(eq[p00.ID], 200) || c03Only(eq[p00.ID], 201)):
-			disc = "bracketed-paste bracket"
-		case c03Only(fin, '~') && impliesLin(facts, Term{ID: "len(" + paramsT.ID + ")"}, Term{}, 0):
-			disc = "CSI ~ without parameters is not a key report"
-		case c03Only(fin, 'R') && x.guardedByReqCursorPos(g, h.Loc, reqPos):
-			disc = "a cursor-position request is outstanding (documented ambiguity of CSI R)"
-		}
-		key := fmt.Sprintf("%s/[CSI %s] return without an event only behind a reply discriminator", x.handle.Name, c03Runes(carried))
-		if disc != "" {
-			c.ok("C03.g", key, h.Node.Pos(), "%s", disc)
-		} else {
-			c.bad("C03.g", key, h.Node.Pos(), "handleSequence returns without posting an event for CSI … %s under conditions a key report satisfies: those key presses are lost", c03Runes(carried))
-		}
-	}
-	if nRet == 0 {
-		c.undecided("C03.g", x.handle.Name+"/silent returns", cc.Pos(), "no return under a key-carrying final found; the dispatch has changed shape")
-	}
-	// the fall-through decode exists in the CSI clause
-	nDec := 0
-	for _, h := range g.Calls(func(fn *types.Func, _ *ast.CallExpr) bool { return fn != nil && repoName(fn) == "vaxis.decodeKey" }) {
-		if inCSI(h.Node) {
-			nDec++
-			eq := x.eqFacts(g, h.Loc)
-			c.check(len(eq[finalT.ID]) == 0 && len(g.Guards(h.Loc)) == 0, "C03.g", x.handle.Name+"/CSI fall-through decodes every final", h.Node.Pos(),
-				"decodeKey after the final-byte switch is not restricted to particular finals", "the CSI key decode is reachable only for some final bytes")
-		}
-	}
-	if nDec == 0 {
-		c.bad("C03.g", x.handle.Name+"/CSI fall-through decodes every final", cc.Pos(), "the CSI clause has no decodeKey: CSI key reports yield no event")
+	walk(start, true)
+	if missed.IsValid() {
+		c.bad("C03.e", key, missed, "a sequence received from the parser can reach the next wait of the loop without having been handed to handleSequence: its input is lost")
+	} else {
+		c.ok("C03.e", key, arm.Pos(), "every path through the parser arm calls handleSequence or is the EOF exit")
 	}
 }
 
@@ -1122,27 +1190,43 @@ func (x *c03Env) keyFinals() map[int64]bool {
 	return out
 }
 
-// guardedByReqCursorPos: a positive guard `atomicLoad(&vx.reqCursorPos)` (or the field itself) dominates loc.
+// guardedByReqCursorPos: a dominating condition implies that the request flag is set
+// (`if load {…}`, the fall-through of `if !load { break }`, a conjunct, `load == true`, …).
 func (x *c03Env) guardedByReqCursorPos(g *FG, loc Loc, reqPos *types.Var) bool {
+	if reqPos == nil {
+		return false
+	}
 	for _, gd := range g.Guards(loc) {
-		if !gd.Pol || gd.Cond.Tag != nil {
-			continue
+		if gd.Cond.Tag == nil && gd.Cond.Alts == nil && x.impliesLoad(gd.Cond.Expr, gd.Pol, reqPos) {
+			return true
 		}
-		hit := false
-		ast.Inspect(gd.Cond.Expr, func(n ast.Node) bool {
-			if e, ok := n.(ast.Expr); ok && x.selectsField(e, reqPos) {
-				hit = true
-			}
-			return !hit
-		})
-		// positive polarity of the whole condition: accept only a plain call / selector / conjunction
-		if hit {
-			switch unparen(gd.Cond.Expr).(type) {
-			case *ast.CallExpr, *ast.SelectorExpr:
-				return true
-			case *ast.BinaryExpr:
-				if be := unparen(gd.Cond.Expr).(*ast.BinaryExpr); be.Op == token.LAND || be.Op == token.NEQ || be.Op == token.EQL {
-					return true
+	}
+	return false
+}
+
+// impliesBool: cond having truth value pol implies that the boolean atom (recognised by isAtom) is true.
+func (x *c03Env) impliesBool(e ast.Expr, pol bool, isAtom func(ast.Expr) bool) bool {
+	e = unparen(e)
+	if isAtom(e) {
+		return pol
+	}
+	switch t := e.(type) {
+	case *ast.UnaryExpr:
+		if t.Op == token.NOT {
+			return x.impliesBool(t.X, !pol, isAtom)
+		}
+	case *ast.BinaryExpr:
+		switch t.Op {
+		case token.LAND:
+			return pol && (x.impliesBool(t.X, true, isAtom) || x.impliesBool(t.Y, true, isAtom))
+		case token.LOR:
+			return !pol && (x.impliesBool(t.X, false, isAtom) || x.impliesBool(t.Y, false, isAtom))
+		case token.EQL, token.NEQ:
+			for _, pr := range [][2]ast.Expr{{t.X, t.Y}, {t.Y, t.X}} {
+				if tv, ok := x.info.Types[pr[1]]; ok && tv.Value != nil && tv.Value.Kind() == constant.Bool {
+					val := constant.BoolVal(tv.Value)
+					// (atomExpr == val) has value pol  =>  atomExpr has value (val == (eq == pol))
+					return x.impliesBool(pr[0], val == ((t.Op == token.EQL) == pol), isAtom)
 				}
 			}
 		}
